@@ -3,7 +3,16 @@ import wlcheck
 
 PID = 'C06'
 TAGS = set('snapget,snapiter,step'.split(','))
-THEOREMS = []
+THEOREMS = [
+    'Lcdb.C06.snapshot_view_stable',
+    'Lcdb.C06.background_preserves_view',
+    'Lcdb.C06.write_view',
+    'Lcdb.C06.other_snapshots_irrelevant',
+    'Lcdb.C06.compact_preserves_view',
+    'Lcdb.C06.compact_preserves_view_above',
+    'Lcdb.C06.step_preserves_noSeqTies',
+    'Lcdb.C06.history_refines',
+]
 IMPORTS = ['LcdbModel.Props.C06']
 TARGETS = ['LcdbModel.Props.C06']
 
